@@ -28,31 +28,34 @@ theorem writeFields_prim_cons (env : Env) (tl : Option Nat) (ctx : List (Nat × 
       | node _ _ => simp [writeV] at ha
     · cases hw
 
-/-- header shape of `ClassFile`: `const magic: u32`, two `u16` fields, `const count: u16 = pool.len() + 1` after the
-second, then the pool -/
-def poolCountShape (body : Body) : Bool :=
+/-- header shape of `ClassFile`: `const magic: u32`, two `u16` fields, `const count: u16 = pool_slots(&pool) + 1` after
+the second, then the pool, read as `{count - 1; slots}` (both with the slot table `wide`) and handed on as the pool -/
+def poolCountShape (wide : List Nat) (body : Body) : Bool :=
   match body.pre, body.fields with
   | [c0], f1 :: f2 :: fp :: _ =>
     c0.p == .u32 && f1.kind == .field (.prim .u16) false && f1.post == [] &&
     f2.kind == .field (.prim .u16) false &&
     (match f2.post with
-     | [cc] => cc.p == .u16 && cc.e == ⟨64, .add (.lenOf fp.name) (.lit 1)⟩
+     | [cc] => cc.p == .u16 && cc.e == ⟨64, .add (.slotsOf fp.name wide) (.lit 1)⟩ &&
+         (match fp.kind with
+          | .field (.vecSlots e w (.ref _)) true => e == ⟨16, .sub (.var cc.name) (.lit 1)⟩ && w == wide
+          | _ => false)
      | _ => false) &&
     f1.name != fp.name && f2.name != fp.name && fp.isVec
   | _, _ => false
 
-/-- bytes 8 and 9 of the output are `(number of pool entries + 1) as u16` -/
-theorem pool_count_bytes (env : Env) (id nm : Nat) (body : Body) (fs : List Val) (b : Bytes)
-    (hdef : env.defs[id]? = some (.struct nm body)) (hs : poolCountShape body = true)
+/-- bytes 8 and 9 of the output are `(slots of the pool entries + 1) as u16` -/
+theorem pool_count_bytes (env : Env) (wide : List Nat) (id nm : Nat) (body : Body) (fs : List Val) (b : Bytes)
+    (hdef : env.defs[id]? = some (.struct nm body)) (hs : poolCountShape wide body = true)
     (hw : writeV env (.ref id) (.node 0 fs) = some b) :
-    ∃ es, fs[2]? = some (.list es) ∧ (b.drop 8).take 2 = be .u16 ((es.length + 1) % 65536) := by
+    ∃ es, fs[2]? = some (.list es) ∧ (b.drop 8).take 2 = be .u16 ((slotsAll wide es + 1) % 65536) := by
   simp only [poolCountShape] at hs
   split at hs
   · rename_i c0 f1 f2 fp rest hpre hfields
     split at hs
     · rename_i cc hpost2
       simp only [Bool.and_eq_true, beq_iff_eq, bne_iff_ne, ne_eq] at hs
-      obtain ⟨⟨⟨⟨⟨⟨⟨hc0, hk1⟩, hpost1⟩, hk2⟩, hccp, hcce⟩, hne1⟩, hne2⟩, hvec⟩ := hs
+      obtain ⟨⟨⟨⟨⟨⟨⟨hc0, hk1⟩, hpost1⟩, hk2⟩, ⟨hccp, hcce⟩, _⟩, hne1⟩, hne2⟩, hvec⟩ := hs
       simp only [writeV, hdef, if_true] at hw
       split at hw
       · rename_i a w ha hwf
@@ -98,44 +101,94 @@ theorem pool_count_bytes (env : Env) (id nm : Nat) (body : Body) (fs : List Val)
     · simp at hs
   · cases hs
 
+/-! `pool_get`: the index of an entry is one more than the slots of the entries before it -/
+
+theorem poolGet_at (wide : List Nat) : ∀ (pre : List Val) (e : Val) (post : List Val) (at_ : Nat),
+    poolGet wide (pre ++ e :: post) at_ (at_ + slotsAll wide pre) = some e := by
+  intro pre
+  induction pre with
+  | nil => intro e post at_; simp [poolGet, slotsAll]
+  | cons p pre ih =>
+    intro e post at_
+    have hpos : 0 < slotsV wide p := by unfold slotsV; split <;> omega
+    have hne : ¬ at_ = at_ + slotsAll wide (p :: pre) := by simp only [slotsAll]; omega
+    simp only [List.cons_append, poolGet, hne, if_false]
+    have := ih e post (at_ + slotsV wide p)
+    simpa [slotsAll, Nat.add_assoc] using this
+
+theorem poolGet_some (wide : List Nat) : ∀ (es : List Val) (at_ index : Nat) (e : Val),
+    poolGet wide es at_ index = some e →
+    ∃ pre post, es = pre ++ e :: post ∧ index = at_ + slotsAll wide pre := by
+  intro es
+  induction es with
+  | nil => intro at_ index e h; simp [poolGet] at h
+  | cons x xs ih =>
+    intro at_ index e h
+    simp only [poolGet] at h
+    split at h
+    · rename_i heq
+      simp at h; subst h
+      exact ⟨[], xs, rfl, by simp [slotsAll, heq]⟩
+    · obtain ⟨pre, post, rfl, hi⟩ := ih _ _ _ h
+      exact ⟨x :: pre, post, rfl, by simp [slotsAll, hi, Nat.add_assoc]⟩
+
 end RawLayout
 
 namespace JvmsRaw
 open RawLayout
 
-/-- the tag a pool entry value is written with (variants of the pool entry type have literal tags) -/
-def entryTag (variants : List Variant) : Val → Option Nat
-  | .node k _ =>
-    (match variants[k]? with
-     | some v => (match v.tagWrite.e with | .lit t => some t | _ => none)
-     | none => none)
-  | _ => none
+/-- under `slotsConform` the implementation's `.slots()` is the JVMS slot count of every entry value -/
+theorem slotsV_eq_jvms (variants : List Variant) (wide : List Nat) (h : slotsConform variants wide = true) (e : Val) :
+    slotsV wide e = jvmsSlots variants e := by
+  simp only [slotsConform, Bool.and_eq_true, List.all_eq_true, List.mem_range, decide_eq_true_eq] at h
+  obtain ⟨hlt, hall⟩ := h
+  cases e with
+  | num n => simp [slotsV, isWide, jvmsSlots, entryTag]
+  | list l => simp [slotsV, isWide, jvmsSlots, entryTag]
+  | node k fs =>
+    simp only [slotsV, isWide, jvmsSlots, entryTag]
+    cases hv : variants[k]? with
+    | none =>
+      have hk : ¬ k < variants.length := by
+        intro hk
+        rw [List.getElem?_eq_getElem hk] at hv; cases hv
+      have hnm : k ∉ wide := fun hm => hk (hlt k hm)
+      simp [hnm]
+    | some v =>
+      have hk : k < variants.length := by
+        cases Nat.lt_or_ge k variants.length with
+        | inl h => exact h
+        | inr h => rw [List.getElem?_eq_none h] at hv; cases hv
+      have hkk := hall k hk
+      rw [hv] at hkk
+      simp only at hkk ⊢
+      cases he : v.tagWrite.e with
+      | lit t =>
+        rw [he] at hkk
+        simp only [beq_iff_eq] at hkk
+        simp only [slots] at hkk ⊢
+        by_cases ht : t = 5 ∨ t = 6
+        · have hc : k ∈ wide := by simpa [ht] using hkk
+          simp [hc, ht]
+        · have hc : k ∉ wide := by simpa [ht] using hkk
+          simp [hc, ht]
+      | var _ => rw [he] at hkk; cases hkk
+      | lenOf _ => rw [he] at hkk; cases hkk
+      | slotsOf _ _ => rw [he] at hkk; cases hkk
+      | thisLen => rw [he] at hkk; cases hkk
+      | add _ _ => rw [he] at hkk; cases hkk
+      | sub _ _ => rw [he] at hkk; cases hkk
+      | mul _ _ => rw [he] at hkk; cases hkk
 
-/-- §4.1: "The value of the constant_pool_count item is equal to the number of entries in the constant_pool table plus
-one", where long and double entries count twice (§4.4.5) -/
-def jvmsPoolCount (variants : List Variant) (es : List Val) : Nat :=
-  1 + (es.map fun e => match entryTag variants e with | some t => slots t | none => 1).sum
-
-def isLongDouble (variants : List Variant) (e : Val) : Bool :=
-  match entryTag variants e with
-  | some t => t == 5 || t == 6
-  | none => false
-
-theorem jvmsPoolCount_noLD (variants : List Variant) : ∀ (es : List Val), (∀ e ∈ es, isLongDouble variants e = false) →
-    jvmsPoolCount variants es = es.length + 1 := by
+/-- `pool_slots(pool) + 1` is the JVMS `constant_pool_count` -/
+theorem slotsAll_eq_jvms (variants : List Variant) (wide : List Nat) (h : slotsConform variants wide = true) :
+    ∀ (es : List Val), slotsAll wide es + 1 = jvmsPoolCount variants es := by
   intro es
   induction es with
-  | nil => intro _; rfl
+  | nil => rfl
   | cons e es ih =>
-    intro h
-    have h1 := ih (fun x hx => h x (by simp [hx]))
-    have h2 := h e (by simp)
-    simp only [jvmsPoolCount, List.map_cons, List.sum_cons, List.length_cons] at h1 ⊢
-    have : (match entryTag variants e with | some t => slots t | none => 1) = 1 := by
-      simp only [isLongDouble] at h2
-      cases ht : entryTag variants e with
-      | none => rfl
-      | some t => simp [ht] at h2; simp [slots, h2]
+    simp only [jvmsPoolCount, List.map_cons, List.sum_cons, slotsAll] at ih ⊢
+    rw [slotsV_eq_jvms variants wide h e]
     omega
 
 end JvmsRaw
